@@ -2305,7 +2305,8 @@ def convert_squared_difference(op, arch, nng):
         DebugDatabase.add_optimised(op, mul_op)
 
         # Calculate the raw diff
-        raw_diff = ifm.clone(suffix="_raw_diff", set_unique=True)
+        # the result has the shape of the OFM (the IFM may be the broadcast operand)
+        raw_diff = ofm.clone(suffix="_raw_diff", set_unique=True)
         raw_diff.values = None  # an intermediate result, also when the operand is a constant
         raw_diff.dtype = DataType.int32
         raw_diff.quantization = None
@@ -2317,7 +2318,8 @@ def convert_squared_difference(op, arch, nng):
         DebugDatabase.add_optimised(op, sub_op)
 
         # Calculate the squared diff
-        squared_raw = ifm.clone(suffix="_squared_raw", set_unique=True)
+        # the result has the shape of the OFM (the IFM may be the broadcast operand)
+        squared_raw = ofm.clone(suffix="_squared_raw", set_unique=True)
         squared_raw.values = None  # an intermediate result, also when the operand is a constant
         squared_raw.dtype = DataType.int32
         squared_raw.quantization = None
